@@ -122,11 +122,22 @@ def c172(ctx):
         ctx.order_chain(R, f, [("set_next(x, idx, obs[idx])", sn), ("cas_next(prev[idx], idx, obs[idx], x)", cs)], cycles=True)
         for p in sn:
             t = P.term_at(f, p)
-            ctx.check(R, f, "set_next-args", "x" in K.var_names(f, t["args"][0]) and "obs" in K.var_names(f, t["args"][2]),
+            newn = any(c.endswith("::new_node") for c in P.origin_calls(f, t["args"][0]))
+            obs_here = K.user_locals(f, t["args"][2])
+            obs_cas = set()
+            for q in cs:
+                obs_cas |= K.user_locals(f, P.term_at(f, q)["args"][2])
+            ctx.check(R, f, "set_next-args", newn and bool(obs_here & obs_cas),
                       "set_next initialises the new node x with the observed successor", "set_next does not store obs[idx] into the new node", pt=p)
         for p in cs:
             t = P.term_at(f, p)
-            ctx.check(R, f, "cas-args", "prev" in K.var_names(f, t["args"][0]) and "obs" in K.var_names(f, t["args"][2]) and "x" in K.var_names(f, t["args"][3]),
+            obs_set = set()
+            for q in sn:
+                obs_set |= K.user_locals(f, P.term_at(f, q)["args"][2])
+            same_obs = bool(K.user_locals(f, t["args"][2]) & obs_set)
+            other_vec = not (K.user_locals(f, t["args"][0]) & K.user_locals(f, t["args"][2]) - {l for l in K.user_locals(f, t["args"][0]) if "usize" in f.locals[l]})
+            ctx.check(R, f, "cas-args", same_obs and any(c.endswith("::new_node") for c in P.origin_calls(f, t["args"][3])) and
+                      any(c.endswith("find_greater_or_equal_and_pointers") for c in P.origin_calls(f, t["args"][0])),
                       "cas_next swings prev[idx] from the same observed successor to x", "cas_next does not compare against the successor stored into the node", pt=p)
         nn = ctx.calls(R, f, r"skipfree::SkipList.*::new_node$")
         ctx.order_chain(R, f, [("new_node", nn), ("set_next", sn)])
@@ -137,11 +148,11 @@ def c172(ctx):
         ctx.order_chain(R, f, [("set_next(node, head)", sn), ("compare_exchange(head, node)", cs)], cycles=True)
         for p in cs:
             t = P.term_at(f, p)
-            ctx.check(R, f, "cas-args", "head" in K.var_names(f, t["args"][1]) and "node" in K.var_names(f, t["args"][2]),
+            ctx.check(R, f, "cas-args", any(c.endswith("::load") for c in P.origin_calls(f, t["args"][1])) and any(re.search(r"Box.*::(leak|into_raw|new)$", c) for c in P.origin_calls(f, t["args"][2])),
                       "compare_exchange swings List.head from the observed head to the node", "compare_exchange arguments are not (head, node)", pt=p)
         for p in sn:
             t = P.term_at(f, p)
-            ctx.check(R, f, "set_next-args", "node" in K.var_names(f, t["args"][0]) and "head" in K.var_names(f, t["args"][1]),
+            ctx.check(R, f, "set_next-args", any(re.search(r"Box.*::(leak|into_raw|new)$", c) for c in P.origin_calls(f, t["args"][0])) and any(c.endswith("::load") for c in P.origin_calls(f, t["args"][1])),
                       "the node's next is the observed head", "set_next does not store the observed head into the node", pt=p)
         # the head observed is re-read on every retry
         ld = [p for p in P.call_points(f, r"Atomic\w*::load$")]
